@@ -6,6 +6,26 @@ ROOT = os.path.dirname(os.path.dirname(os.path.abspath(__file__)))
 props = [json.loads(l) for l in open(os.path.join(ROOT, "properties.jsonl"))]
 
 CLAIMED = {
+ "C01": dict(category="exploration",
+   text="Schedule exploration at filesystem-call granularity of real processes (the interposer's gate lets exactly one participant run between two of its calls): for every call boundary of every participant a context switch to the others (thorough: two switches, three participants, random schedules) over set/put/ensure/promotion/Replace/touch/get/maintenance families on plain, sharded and stacked caches with multi-chunk values. Oracles: every returned handle reads a complete value of its key at return and again after the others ran; at EVERY scheduling point every key-named file on disk is complete and read-only. Every explored schedule is replayed on the interleaving semantics of the Rocq model (Conc/Pool.v, slots of program trees over one shared filesystem) and results, traces and final tree must agree.",
+   ref="DESIGN.md section 6 C01", technique="systematic schedule exploration of real processes + replay of each schedule on the Rocq pool model (interleaving theorem over the model: in progress)",
+   note="Level stated as exploration: the kernel-checked part today is the pool semantics' adequacy lemmas and every all-environment theorem (C15, C16, C20) lifted to pools by pool_wp; the invariant proof 'published inodes are complete and never written' over all schedules is not finished. Threads sharing one handle are not explored."),
+ "C02": dict(category="fault_enumeration",
+   text="Crash-point enumeration: every publishing operation x front-end x pre-state is killed (_exit in the interposer) before EVERY one of its filesystem calls; fresh processes then snapshot the tree, run get/touch/put/set/ensure, and two hours later (scripted clock) write with maintenance firing. Oracles: key-named files complete and read-only, debris only under .kismet_temp, later operations succeed with normal semantics, young debris left alone, stale debris of a maintained directory reclaimed; the model crashed at the same call (run_crash) must agree on traces, results and all snapshots.",
+   ref="DESIGN.md section 6 C02", technique="crash-point enumeration through an LD_PRELOAD interposer against the Rocq model crashed at the same call (general theorem over crash positions: in progress)",
+   note="Process death only, as the property states. Level stated as fault enumeration until the theorem over all crash positions is finished."),
+ "C04": dict(category="exploration",
+   text="Schedule exploration (as C01) of 2-3 participants x 1-3 operations from {set, put, get, touch, ensure} on one key of a plain cache, key initially absent or present; the call/return history in scheduler steps is searched exhaustively for a linearization against the sequential register specification (set overwrites, put fills only an absent key, touch reports presence, ensure = put then lookup); every schedule replayed on the Rocq pool model.",
+   ref="DESIGN.md section 6 C04", technique="systematic schedule exploration + linearizability checking (Wing-Gong search) + replay on the Rocq pool model (linearization-point theorem: in progress)",
+   note="Level stated as exploration; kernel-checked today: link on an existing name fails without effect, rename replaces atomically (fs lemmas), pool adequacy."),
+ "C05": dict(category="exploration",
+   text="Every call on a shared path of every fault-free execution (operation x front-end x pre-state) is made to return, one at a time, exactly what a concurrent unlink / publish / mkdir by another participant causes (ENOENT, EEXIST): no error or panic may surface, the following lookup neither; model and implementation agree under the same injection. In addition the real interleavings of the concurrent families (gate mode, every single context-switch point) must end every operation without error.",
+   ref="DESIGN.md section 6 C05", technique="lost-race injection + systematic schedule exploration, both replayed on the Rocq model (general theorem: in progress)",
+   note="Cache directories are assumed never removed; temp files of live operations younger than the one-hour limit."),
+ "C06": dict(category="exploration",
+   text="Frozen-peer exploration: in the concurrent families one participant is suspended forever after every number of its filesystem calls (after progress of the others as well); every other participant must then complete all its operations alone, without error, within the step bounds (get/touch/set/put without maintenance: exactly the budgets of the kernel-checked theorems C20_*_calls, which hold for arbitrary call results and hence arbitrary interference; maintenance: linear in the listed entries), and no participant may issue a locking call. Kernel-checked: pool_wp lifts every all-environment bound to every participant of every pool under every schedule (C06_bounded_in_any_pool), and the model's call vocabulary has no lock.",
+   ref="DESIGN.md section 6 C06", technique="Rocq proof (all-environment weakest preconditions lifted to interleavings) for the step bounds + frozen-peer schedule exploration for progress",
+   note="Successful completion with frozen peers is established by exploration, the step bounds and lock-freedom by theorem + trace tie."),
  "C08": dict(
    text="Kernel-checked theorems over the executable planner model for every input and capacity (count, partition, equality with the classical clock queue, unreachable assertion); the model is tied to the code by exhaustive (n<=5 quick / n<=7 thorough, 4 ranks, 2 flags, all capacities) and random large-input differential runs through the public Update::new; a proved-sound verdict procedure (valid_plan) decides outputs that differ only in tie order.",
    ref="DESIGN.md section 6 C08", technique="Rocq proof (induction over the sorted queue) + model/implementation correspondence via extracted OCaml",
